@@ -6,6 +6,10 @@ import (
 	"strconv"
 )
 
+// readAllPreallocLimit is the largest declared size ReadAll allocates up
+// front.
+const readAllPreallocLimit = 256 << 20
+
 func parseClampedInt(in string, defaultValue, min, max int64) (int64, error) {
 	var v int64
 	if in == "" {
@@ -35,9 +39,23 @@ func parseClampedInt(in string, defaultValue, min, max int64) (int64, error) {
 // It also reports S3-specific errors in certain conditions, like
 // ErrIncompleteBody.
 func ReadAll(r io.Reader, size int64) (b []byte, err error) {
+	if size < 0 {
+		return nil, ErrIncompleteBody
+	}
+
 	var n int
-	b = make([]byte, size)
-	n, err = io.ReadFull(r, b)
+	if size <= readAllPreallocLimit {
+		b = make([]byte, size)
+		n, err = io.ReadFull(r, b)
+	} else {
+		// The declared size is not trusted for one huge up-front allocation;
+		// beyond the limit the buffer grows with what actually arrives.
+		b, err = ioutil.ReadAll(io.LimitReader(r, size))
+		n = len(b)
+		if err == nil && int64(n) < size {
+			err = io.ErrUnexpectedEOF
+		}
+	}
 	if err == io.ErrUnexpectedEOF {
 		return nil, ErrIncompleteBody
 	} else if err != nil {
